@@ -14,6 +14,10 @@ mod robust;
 mod conv;
 mod mc;
 mod diag;
+mod poison;
+
+#[global_allocator]
+static GLOBAL: poison::Poison = poison::Poison;
 
 use common::Out;
 use std::io::Write;
@@ -49,6 +53,8 @@ fn main() {
             }
         }
     }
+    let poison = poison::init_from_env();
+    eprintln!("heap poison: {}", poison);
     // panics inside guarded sections are expected outcomes; keep stderr quiet
     std::panic::set_hook(Box::new(|_| {}));
     let mut out = Out::new();
